@@ -16,7 +16,8 @@ RULE = (
     "Hypothesis-generated fixed-size schemas (nested structs <= 3 levels, arrays of scalars/structs/arrays, enums of "
     "every width 1..63, int widths 1..64, shuffled ids) with 1-4 bindings over protocols {can, other} carrying signal "
     "blocks named after top-level, nested, unrolled and non-existing fields, parsed by the real front end; plus a "
-    "generated history of (new_encoder(unroll) | generate(binding i)) operations on one PackedEncoder. Oracle after "
+    "generated history of (new_encoder(unroll) | generate(binding i)) operations on one PackedEncoder, including calls that "
+    "fail (array of structs without unrolling). Oracle after "
     "every generate(): (a) names/starts/widths/order/leaf type/unit == reference layout fold; (b) starts at 0, contiguous, "
     "unique names, total == sum of wire widths; (c) equals what a fresh encoder returns, and lists returned earlier are "
     "not mutated; (d) a leaf produced directly by a field named like a signal block carries that block's options and "
@@ -204,7 +205,15 @@ def run_history(s: M.Schema, fcp: Any, unroll0: bool, ops: List[Tuple[str, Any]]
         m = explicit.get((real.name, real.protocol)) or M.Impl(real.protocol, real.type)
         ref = can_layout(s, m.type, unroll)
         if ref is None:
-            continue  # array of struct without unrolling: outside the domain
+            # array of struct without unrolling has no layout (a clean ValueError): still a step of the history —
+            # whatever the failed call did must not leak into the next layout
+            try:
+                enc.generate(real)
+            except Exception:
+                pass
+            rec.cls("failed_generate_in_history")
+            n_gen += 1
+            continue
         case = {"schema_text": text, "schema_pickle": pickle_b64(s), "unroll0": unroll0, "ops": [list(o) for o in ops[: step + 1]]}
         try:
             got_vals = enc.generate(real)
